@@ -324,6 +324,12 @@ def handle (st : DState) (line : String) : DState × List String :=
     | some n => (st, [if isSpace (Char.ofNat n) then "1" else "0"])
     | none => (st, ["bad-op"])
   | ["sstate"] => (st, absLines st.a ++ ["."])
+  | "snaps" :: r =>
+    match decCall r with
+    | none => (st, ["bad-op"])
+    | some c =>
+      let (res, _, snaps) := Prog.runSnap (c.prog st.cfg st.tabs.oracle) { st.w with log := [], fault := none } []
+      (st, (snaps.flatMap fun s => stateLines st.cfg s ++ ["--"]) ++ [showResult st.cfg res, "."])
   | "sites" :: r =>
     match decCall r with
     | none => (st, ["bad-op"])
